@@ -499,6 +499,9 @@ type ClientSession struct {
 	// Unsubscribe straight to the resources/subscribe and resources/unsubscribe
 	// RPCs and leaves this map untouched.
 	resourceSubs map[string]context.CancelFunc
+	// resourceSubsClosed is set by Close: no listen stream may be opened any
+	// more, since nothing would cancel it and Close waits for open calls.
+	resourceSubsClosed bool
 }
 
 type clientSessionState struct {
@@ -1391,6 +1394,10 @@ func (cs *ClientSession) Subscribe(ctx context.Context, params *SubscribeParams)
 
 	var listenCtx context.Context
 	cs.resourceSubsMu.Lock()
+	if cs.resourceSubsClosed {
+		cs.resourceSubsMu.Unlock()
+		return fmt.Errorf("%w: Subscribe: session is closing", ErrConnectionClosed)
+	}
 	if _, exists := cs.resourceSubs[uri]; !exists {
 		var cancel context.CancelFunc
 		listenCtx, cancel = context.WithCancel(context.Background())
@@ -1444,6 +1451,7 @@ func (cs *ClientSession) cancelAllResourceSubscriptions() {
 	cs.resourceSubsMu.Lock()
 	subs := cs.resourceSubs
 	cs.resourceSubs = nil
+	cs.resourceSubsClosed = true
 	cs.resourceSubsMu.Unlock()
 	for _, cancel := range subs {
 		cancel()
